@@ -65,8 +65,6 @@ def _own_nodes(fnode):
 
 def eligible(fi):
     n = fi.node
-    if fi.outer is not None:
-        return False
     if n.name.startswith("__") and n.name.endswith("__"):
         return False
     for d in n.decorator_list:
@@ -89,7 +87,7 @@ def eligible(fi):
 
 def _kind(fi):
     decs = [unparse(d) for d in fi.node.decorator_list]
-    if fi.cls is None:
+    if fi.cls is None or fi.outer is not None:
         return "function"
     if "staticmethod" in decs:
         return "static"
@@ -653,6 +651,14 @@ def _const_ok(node, depth=0):
         return all(_const_ok(e, depth + 1) for e in node.elts)
     if isinstance(node, ast.Dict):
         return all(k is not None and _const_ok(k, depth + 1) and _const_ok(v, depth + 1) for k, v in zip(node.keys, node.values))
+    # pure expressions over other module-level names (an imported constant, another constant of this module)
+    if isinstance(node, (ast.Name, ast.Attribute)):
+        d = dotted(node)
+        return d is not None and d.split(".")[0] not in ("self", "cls")
+    if isinstance(node, ast.BinOp):
+        return _const_ok(node.left, depth + 1) and _const_ok(node.right, depth + 1)
+    if isinstance(node, ast.UnaryOp):
+        return _const_ok(node.operand, depth + 1)
     return False
 
 
@@ -711,6 +717,7 @@ class _ConstSubst(ast.NodeTransformer):
         self.foreign = foreign  # rel -> consts of other modules
         self.shadow = [set()]
         self.count = 0
+        self.depth = 0
 
     def _fn(self, node):
         local = _stored_names(node.body) | {a.arg for a in ast.walk(node.args) if isinstance(a, ast.arg)}
@@ -723,9 +730,13 @@ class _ConstSubst(ast.NodeTransformer):
 
     def visit_Name(self, node):
         if isinstance(node.ctx, ast.Load) and not any(node.id in s for s in self.shadow):
-            if node.id in self.consts:
+            if node.id in self.consts and self.depth < 6:
                 self.count += 1
-                return ast.copy_location(clone(self.consts[node.id]), node)
+                self.depth += 1
+                try:
+                    return ast.copy_location(self.visit(clone(self.consts[node.id])), node)
+                finally:
+                    self.depth -= 1
             tgt = self.module.imports.get(node.id)
             if tgt and self.foreign:
                 r = self.repo._resolve_abs(tgt)
@@ -840,6 +851,18 @@ def _still_referenced(repo, fi):
     return False
 
 
+def _remove_def(tree, node):
+    class R(ast.NodeTransformer):
+        def generic_visit(self, n):
+            for field in ("body", "orelse", "finalbody"):
+                lst = getattr(n, field, None)
+                if isinstance(lst, list) and any(x is node for x in lst):
+                    new = [x for x in lst if x is not node]
+                    setattr(n, field, new or ([ast.Pass()] if field == "body" else []))
+            return super().generic_visit(n)
+    R().visit(tree)
+
+
 def normalize(repo, rebuild):
     """Expand unknown helpers/constants in `repo` (a raw Repo).  `rebuild(repo, rels)` re-indexes the changed modules.
 
@@ -876,10 +899,12 @@ def normalize(repo, rebuild):
         for rel, m in repo.modules.items():
             if rel not in known["globals"]:
                 continue
-            for fi in list(m.functions.values()) + [f for c in m.classes.values() for f in c.methods.values()]:
+            for fi in m.all_functions():
                 if fi.key not in kf and eligible(fi):
                     if fi.cls is not None and ("%s::%s" % (rel, fi.cls.name)) not in known["class_attrs"]:
                         continue  # a whole new class
+                    if fi.outer is not None and fi.outer.key not in kf and not eligible(fi.outer):
+                        continue
                     unknown[fi.key] = fi
         for k in _recursive(repo, unknown):
             unknown.pop(k, None)
@@ -889,6 +914,7 @@ def normalize(repo, rebuild):
         round_changed = set()
         for rel, m in repo.modules.items():
             for fi in list(m.functions.values()) + [f for c in m.classes.values() for f in c.methods.values()]:
+                # (nested functions are rewritten as part of their outermost function)
                 if ex.expand_function(fi):
                     round_changed.add(rel)
         if not ex.log:
@@ -904,13 +930,16 @@ def normalize(repo, rebuild):
             notes.append("unlisted helper %s expanded at %s" % (callee, ", ".join(sorted(set(sites)))))
         # drop definitions that are no longer referenced
         dropped = set()
-        for key, fi in unknown.items():
-            fi2 = repo.func_opt(fi.module.rel, fi.qual)
+        current = {}
+        for m in repo.modules.values():
+            for f in m.all_functions():
+                current[f.key] = f
+        for key in unknown:
+            fi2 = current.get(key)
             if fi2 is None:
                 continue
             if not _still_referenced(repo, fi2):
-                owner = fi2.cls.node if fi2.cls is not None else fi2.module.tree
-                owner.body = [s for s in owner.body if s is not fi2.node] or [ast.Pass()]
+                _remove_def(fi2.module.tree, fi2.node)
                 dropped.add(fi2.module.rel)
         if dropped:
             for rel in dropped:
